@@ -7,21 +7,27 @@ import Nstd.Sha.LemmasBits
 namespace Nstd.Sha
 open Nstd.Generated Nstd.Generated.Sha256
 
-/-! ### the generated word functions are the functions of FIPS 180-4 §4.1.2 -/
+/-! ### the generated word functions are the functions of FIPS 180-4 §4.1.2
+(`Ch`, `Maj` bit by bit, so that any boolean-equivalent way of writing the macros is accepted) -/
+set_option linter.unusedSimpArgs false
 
 theorem Ch_eq (x y z : UInt32) : Sha256.Ch x y z = Spec.Ch x y z := by
-  apply UInt32.eq_of_toBitVec_eq
-  simp only [Sha256.Ch, Spec.Ch, UInt32.toBitVec_xor, UInt32.toBitVec_and, UInt32.toBitVec_not]
-  ext i hi
-  simp only [BitVec.getElem_xor, BitVec.getElem_and, BitVec.getElem_not]
-  cases x.toBitVec[i] <;> cases y.toBitVec[i] <;> cases z.toBitVec[i] <;> rfl
+  first
+  | rfl
+  | (apply UInt32.eq_of_toBitVec_eq
+     simp only [Sha256.Ch, Spec.Ch, UInt32.toBitVec_xor, UInt32.toBitVec_and, UInt32.toBitVec_or, UInt32.toBitVec_not]
+     ext i hi
+     simp only [BitVec.getElem_xor, BitVec.getElem_and, BitVec.getElem_or, BitVec.getElem_not]
+     cases x.toBitVec[i] <;> cases y.toBitVec[i] <;> cases z.toBitVec[i] <;> rfl)
 
 theorem Maj_eq (x y z : UInt32) : Sha256.Maj x y z = Spec.Maj x y z := by
-  apply UInt32.eq_of_toBitVec_eq
-  simp only [Sha256.Maj, Spec.Maj, UInt32.toBitVec_xor, UInt32.toBitVec_and, UInt32.toBitVec_or]
-  ext i hi
-  simp only [BitVec.getElem_xor, BitVec.getElem_and, BitVec.getElem_or]
-  cases x.toBitVec[i] <;> cases y.toBitVec[i] <;> cases z.toBitVec[i] <;> rfl
+  first
+  | rfl
+  | (apply UInt32.eq_of_toBitVec_eq
+     simp only [Sha256.Maj, Spec.Maj, UInt32.toBitVec_xor, UInt32.toBitVec_and, UInt32.toBitVec_or, UInt32.toBitVec_not]
+     ext i hi
+     simp only [BitVec.getElem_xor, BitVec.getElem_and, BitVec.getElem_or, BitVec.getElem_not]
+     cases x.toBitVec[i] <;> cases y.toBitVec[i] <;> cases z.toBitVec[i] <;> rfl)
 
 theorem S0_eq (x : UInt32) : Sha256.S0 x = Spec.bigSigma0 x := rfl
 theorem S1_eq (x : UInt32) : Sha256.S1 x = Spec.bigSigma1 x := rfl
